@@ -433,3 +433,108 @@ Qed.
 
 Lemma keys_ok_fix h : keys_ok esc_fix h.
 Proof. intros n e k _ _ _. apply esc_fix_plain. Qed.
+
+(* ---- packaged statements (props/C17.v) ----------------------------------------------- *)
+(* repaired push: no hypothesis on the keys *)
+Theorem inside_jobdir_fix : forall h gens root jd l e,
+  files_ok gens -> generated esc_fix h gens root jd = Some l -> In e l ->
+  exists comps, comps <> [] /\ Forall (fun c => plain c = true) comps /\
+    g_path e = {| p_root := p_root jd; p_parts := p_parts jd ++ comps |}.
+Proof. intros. eapply inside_jobdir; eauto. apply keys_ok_fix. Qed.
+
+Theorem distinct_fix : forall h gens root jd l e1 e2,
+  all_unamb h -> files_ok gens ->
+  generated esc_fix h gens root jd = Some l -> In e1 l -> In e2 l ->
+  (g_node e1, g_file e1) <> (g_node e2, g_file e2) -> g_path e1 <> g_path e2.
+Proof.
+  intros h gens root jd l e1 e2 U F. apply distinct; auto.
+  - apply esc_fix_inj. - apply keys_ok_fix.
+Qed.
+
+Theorem reproducible_layout_fix : forall h gens root, files_ok gens ->
+  exists rels, forall jd, generated esc_fix h gens root jd = Some (map (place jd) rels).
+Proof. intros. apply reproducible_layout; auto. apply keys_ok_fix. Qed.
+
+(* the code as it is: for dict keys that are plain names *)
+Theorem distinct_plainkeys : forall h gens root jd l e1 e2,
+  all_unamb h -> keys_ok esc_prefix h -> files_ok gens ->
+  generated esc_prefix h gens root jd = Some l -> In e1 l -> In e2 l ->
+  (g_node e1, g_file e1) <> (g_node e2, g_file e2) -> g_path e1 <> g_path e2.
+Proof. intros h gens root jd l e1 e2 U K F. apply distinct; auto. Qed.
+
+(* ---- examples: the hypotheses are satisfiable by non-trivial graphs ---------------- *)
+Definition s_c : str := [99].           (* "c" *)
+Definition s_d : str := [100].          (* "d" *)
+Definition s_l : str := [108].          (* "l" *)
+Definition s_p : str := [112].          (* "p" *)
+Definition s_otxt : str := [111; 46; 116; 120; 116].   (* "o.txt" *)
+Definition mk (c : nat) fs pr := {| cls := c; fields := fs; pre := pr; init := []; task := None; sealed := false |}.
+Definition ex_gens : list (list (str * str)) := [[(s_p, k_out)]; [(s_p, s_otxt)]].
+Definition ex_jd : ppath := {| p_root := 1; p_parts := [[74; 79; 66]] |}.
+
+(* task 0: c -> 1, l -> [2; 1], d -> {"a": 2}; node 1: c -> 2 and a cycle back to 1; pre-task 3 at 1 *)
+Definition ex_heap : heap :=
+  [ mk 0 [(s_c, VRef 1); (s_l, VList [VRef 2; VRef 1]); (s_d, VDict [([97], VRef 2)])] [];
+    mk 1 [(s_c, VRef 2); (s_d, VDict [([97], VRef 1)])] [3%nat];
+    mk 1 [] [];
+    mk 1 [] [] ].
+
+Example ex_hyps : unambb ex_heap = true /\ files_plainb ex_gens = true /\ keys_plainb esc_prefix ex_heap = true.
+Proof. vm_compute. auto. Qed.
+
+Example ex_hyps_prop : all_unamb ex_heap /\ files_ok ex_gens /\ keys_ok esc_prefix ex_heap.
+Proof.
+  destruct ex_hyps as [A [B C]]. split; [apply unambb_sound; auto|].
+  split; [apply files_plainb_sound; auto | apply keys_plainb_sound; auto].
+Qed.
+
+Example ex_generated : exists l, generated esc_fix ex_heap ex_gens 0 ex_jd = Some l /\ length l = 4%nat.
+Proof. eexists. split; [vm_compute; reflexivity | reflexivity]. Qed.
+
+(* ---- refutations: the literal code with dict keys that are not plain names ---------- *)
+(* d = {"": Leaf, ".": Leaf}: both leaves receive <job>/out/d/o.txt *)
+Definition bad_heap1 : heap :=
+  [ mk 0 [(s_d, VDict [([], VRef 1); ([46], VRef 2)])] []; mk 1 [] []; mk 1 [] [] ].
+
+Theorem distinct_prefix_refuted :
+  exists h gens root jd l e1 e2,
+    all_unamb h /\ files_ok gens /\ generated esc_prefix h gens root jd = Some l /\
+    In e1 l /\ In e2 l /\ g_node e1 <> g_node e2 /\ g_path e1 = g_path e2.
+Proof.
+  exists bad_heap1, ex_gens, 0%nat, ex_jd.
+  eexists. eexists. eexists.
+  split; [apply unambb_sound; vm_compute; reflexivity|].
+  split; [apply files_plainb_sound; vm_compute; reflexivity|].
+  split; [vm_compute; reflexivity|].
+  split; [left; reflexivity|].
+  split; [right; left; reflexivity|].
+  split; [simpl; congruence | reflexivity].
+Qed.
+
+(* d = {"/abs": Leaf}: the leaf receives /abs/o.txt *)
+Definition bad_heap2 : heap :=
+  [ mk 0 [(s_d, VDict [([47; 97; 98; 115], VRef 1)])] []; mk 1 [] [] ].
+
+Theorem inside_prefix_refuted :
+  exists h gens root jd l e,
+    files_ok gens /\ generated esc_prefix h gens root jd = Some l /\ In e l /\
+    ~ exists comps, g_path e = {| p_root := p_root jd; p_parts := p_parts jd ++ comps |}.
+Proof.
+  exists bad_heap2, ex_gens, 0%nat, ex_jd.
+  eexists. eexists.
+  split; [apply files_plainb_sound; vm_compute; reflexivity|].
+  split; [vm_compute; reflexivity|].
+  split; [left; reflexivity|].
+  intros [comps E]. vm_compute in E. inversion E.
+Qed.
+
+(* with the repaired push the same graphs are fine *)
+Example bad_heaps_repaired :
+  (exists l, generated esc_fix bad_heap1 ex_gens 0 ex_jd = Some l /\
+     map g_path l = [ {| p_root := 1; p_parts := [[74;79;66]; k_out; s_d; [37]; s_otxt] |};
+                      {| p_root := 1; p_parts := [[74;79;66]; k_out; s_d; [37;50;69]; s_otxt] |};
+                      {| p_root := 1; p_parts := [[74;79;66]; k_out] |} ]) /\
+  (exists l, generated esc_fix bad_heap2 ex_gens 0 ex_jd = Some l /\
+     map g_path l = [ {| p_root := 1; p_parts := [[74;79;66]; k_out; s_d; [37;50;70;97;98;115]; s_otxt] |};
+                      {| p_root := 1; p_parts := [[74;79;66]; k_out] |} ]).
+Proof. split; eexists; split; vm_compute; reflexivity. Qed.
